@@ -706,11 +706,22 @@ def closure_tree(ctx, b):
     out = [b]; seen = {b.fn}
     k = 0
     while k < len(out):
+        names = []
         for _, t in out[k].calls():
-            for c in t.get("clos") or []:
-                cb = ctx.prog.bodies.get(c)
-                if cb is not None and c not in seen:
-                    seen.add(c); out.append(cb)
+            names += list(t.get("clos") or [])
+            # a function of the crate passed by path where a closure is expected
+            # (`with_connection(id, Connection::end_blocking_with_timeout)`)
+            names += [a["fn"] for a in t.get("a") or [] if isinstance(a, dict) and a.get("fn")]
+        # closures built here and handed on in a way the call facts do not show (through a
+        # helper that was inlined, stored in a local first)
+        for bb in out[k].bbs:
+            for st in bb["s"]:
+                if st["k"] == "=" and st["r"]["k"] == "agg" and str(st["r"]["a"]).startswith("closure:"):
+                    names.append(st["r"]["a"][8:])
+        for c in names:
+            cb = ctx.prog.bodies.get(c)
+            if cb is not None and c not in seen:
+                seen.add(c); out.append(cb)
         k += 1
     return out
 
